@@ -309,6 +309,7 @@ func runConstrCase(o *Oracle, d json.RawMessage, oc *Outcome) {
 	}
 	pb := buildConstrProblem(&c)
 	frontEndDiff(o, oc, &c)
+	callerValuesKept(oc, &c)
 	entry := "solver.Parse" + map[string]string{"card": "CardConstrs", "pb": "PBConstrs"}[c.Front] + "+Solve"
 	if pb.Status == solver.Indet || len(pb.Units) > 0 {
 		oc.Nontrivial = true
@@ -461,5 +462,40 @@ func frontEndDiff(o *Oracle, oc *Outcome, c *ConstrCase) {
 	oc.Corr++
 	if got != want {
 		oc.Fail("corr", "frontend-mirror", "solver."+name, "Go parsed to %q, the Lean mirror GS.Simplify to %q (input %s)", got, want, strings.Join(groups, " ; "))
+	}
+}
+
+// callerValuesKept: "the returned model satisfies every constraint as the caller wrote it" is
+// judged on the harness's own description of the constraints; the values the caller handed to the
+// front end must still say the same afterwards, and parsing them again must give the same problem.
+func callerValuesKept(oc *Outcome, c *ConstrCase) {
+	if c.Front == "card" {
+		var cc []solver.CardConstr
+		for _, k := range c.Constrs {
+			cc = append(cc, k.card()...)
+		}
+		before := fmt.Sprint(cc)
+		p1 := fmtProblem(solver.ParseCardConstrs(cc), true)
+		if after := fmt.Sprint(cc); after != before {
+			oc.Fail("spec", "caller-constraints-unchanged", "solver.ParseCardConstrs", "the caller's constraints %s read %s after the call", before, after)
+			return
+		}
+		if p2 := fmtProblem(solver.ParseCardConstrs(cc), true); p2 != p1 {
+			oc.Fail("spec", "caller-constraints-unchanged", "solver.ParseCardConstrs", "parsing the same values twice gives %q then %q", p1, p2)
+		}
+		return
+	}
+	var pc []solver.PBConstr
+	for _, k := range c.Constrs {
+		pc = append(pc, k.pb()...)
+	}
+	before := fmt.Sprint(pc)
+	p1 := fmtProblem(solver.ParsePBConstrs(pc), true)
+	if after := fmt.Sprint(pc); after != before {
+		oc.Fail("spec", "caller-constraints-unchanged", "solver.ParsePBConstrs", "the caller's constraints %s read %s after the call", before, after)
+		return
+	}
+	if p2 := fmtProblem(solver.ParsePBConstrs(pc), true); p2 != p1 {
+		oc.Fail("spec", "caller-constraints-unchanged", "solver.ParsePBConstrs", "parsing the same values twice gives %q then %q", p1, p2)
 	}
 }
